@@ -123,6 +123,16 @@ func predMembership(fv ssa.Value) (set ssa.Value, negated, ok bool) {
 			v, neg = u.X, true
 		}
 		lk, isLk := v.(*ssa.Lookup)
+		// the branch form: `if set[k] { return false }; ...; return true` - a constant returned under the lookup's outcome
+		if kc, isK := v.(*ssa.Const); isK && !isLk && !neg && kc.Value != nil && isBoolType(kc.Type()) {
+			for _, g := range guardsLocal(ret) {
+				if gl, ok := g.Cond.(*ssa.Lookup); ok && gl.Index == ssa.Value(fn.Params[0]) {
+					lk, isLk = gl, true
+					// result == constant; the lookup has outcome g.Pol: result is "member" when they agree
+					neg = (kc.Value.String() == "true") != g.Pol
+				}
+			}
+		}
 		if !isLk || lk.Index != fn.Params[0] {
 			good = false
 			return
